@@ -57,4 +57,16 @@ CHECKS["C25"] = dict(
     design_ref="DESIGN.md §4 C25",
 )
 
+CHECKS["C13"] = dict(
+    category="translation_validation",
+    technique="per-text SMT equivalence (z3, QF_UFLRA) between the Term tree the real parser returns and CPython's ast for the same text, operands symbolic",
+    text="For every text of a bounded grammar the tree returned by the real parse_by_lark is walked through the repository's ExpressionWalker "
+         "protocol into a z3 term and compared by z3, for all operand values, with the term built from Python's own ast under the same operator "
+         "table; the printed form is re-parsed and compared the same way. Solver counterexamples are confirmed by real evaluation (Pandas vs Python).",
+    note="Bounded grammar (see evidence). lark runs concretely. + * / // % ** and methods are uninterpreted non-associative functions so that "
+         "regrouping is visible; and/or/not only over boolean operands. Trusted: z3, the ast->term and walker->term translations (same table).",
+    design_ref="DESIGN.md §4 C13",
+    engine="z3",
+)
+
 NOT_YET = {}
